@@ -27,7 +27,9 @@ RULE = ("stream 1: one case = one run of the real Simulator with a StochasticNet
         "(scenario, seed); non-trivial = a queue formed at some point; stream 2 (direct): the same network calls "
         "for an arbitrary well-formed history (longer queues, arbitrary fully-charged sets, stale Unplug events; every 4th "
         "one aims at order dependence inside post_charging_update: more satisfied EVs than waiters); every case is also run in two "
-        "fresh interpreters with PYTHONHASHSEED=1 / 4242 (the check runs with 0) and the recorded runs must be identical")
+        "fresh interpreters with PYTHONHASHSEED=1 / 4242 (the check runs with 0) and the recorded runs must be identical; "
+        "40% of the cases name their stations unusually (integers from 0, an empty string, mixed); in a third of the simulator "
+        "runs the scheduler raises once in a period with an arrival and run() is called again (interrupted-and-resumed run)")
 ASSUMPTIONS = ["each session is plugged in once and unplugged once, after its plugin (C01); the monitor re-checks it on every recorded run",
                "EV objects are identified with their session ids; random.choice is an arbitrary index into the free list",
                "theorems are about Model/StochNet.v; the model is tied to stochastic_network.py by the per-call state comparison "
@@ -54,10 +56,29 @@ def rand_scenario(rng, tier="quick"):
         p = rng.choice([3.3, 7.68, 7.68])
         sessions.append(dict(k=k, arrival=a, departure=a + d, energy=e, max_power=p))
     rng.shuffle(sessions)
+    # in a third of the runs the scheduler raises once in a period in which an EV arrives; the harness catches the
+    # exception and calls run() again (interrupted-and-resumed run)
+    raise_at = sorted(set(rng.sample([s["arrival"] for s in sessions], min(len(sessions), rng.randint(1, 2))))) if rng.random() < 0.35 else []
     return dict(n=n, sessions=sessions, early=rng.random() < 0.6,
                 sched=rng.choice(["unc", "unc", "scr", "scr", "fcfs"]),
                 sched_seed=rng.randint(0, 10 ** 6), max_recompute=rng.choice([None, 1, 2]),
-                seed=rng.randint(0, 10 ** 6))
+                seed=rng.randint(0, 10 ** 6), ids=rand_ids(rng), raise_at=raise_at)
+
+
+def rand_ids(rng):
+    """how the stations are named: usual strings, or legal-but-unusual ids (integers from 0, an empty string, mixed)"""
+    return rng.choice(["plain", "plain", "plain", "int0", "empty", "mixed"])
+
+
+def station_ids(sc):
+    mode, n = sc.get("ids", "plain"), sc["n"]
+    if mode == "int0":
+        return list(range(n))
+    if mode == "empty":
+        return [""] + ["ST-%02d" % i for i in range(1, n)] if n else []
+    if mode == "mixed":
+        return [0 if i == 0 else "" if i == 1 else ("ST-%02d" % i if i % 2 == 0 else i) for i in range(n)]
+    return ["ST-%02d" % i for i in range(n)]
 
 
 def rand_direct(rng, tier="quick"):
@@ -84,7 +105,7 @@ def rand_direct(rng, tier="quick"):
             ops.append(["P", sorted(k for k in arrived if rng.random() < p_full)])
     ops.append(["P", []])
     return dict(n=n, sessions=sessions, early=rng.random() < 0.75, sched="direct", sched_seed=0,
-                max_recompute=None, seed=rng.randint(0, 10 ** 6), ops=ops)
+                max_recompute=None, seed=rng.randint(0, 10 ** 6), ops=ops, ids=rand_ids(rng))
 
 
 def rand_hashprobe(rng):
@@ -110,7 +131,7 @@ def rand_hashprobe(rng):
             ops.append(["P", sorted(order)])
     ops.append(["P", []])
     return dict(n=n, sessions=sessions, early=True, sched="direct", sched_seed=0,
-                max_recompute=None, seed=rng.randint(0, 10 ** 6), ops=ops)
+                max_recompute=None, seed=rng.randint(0, 10 ** 6), ops=ops, ids=rand_ids(rng))
 
 
 def extra_streams(rng, tier):
@@ -262,8 +283,7 @@ def run_impl(sc):
 
     net = Rec(early_departure=sc["early"])
     net._rec_init()
-    for i in range(sc["n"]):
-        sid = "ST-%02d" % i
+    for i, sid in enumerate(station_ids(sc)):
         st_num[sid] = i + 1
         net.register_evse(EVSE(sid, max_rate=32), 240, 0)
     evs = []
@@ -275,6 +295,7 @@ def run_impl(sc):
     saved_mod, saved_state = snmod.random, pyrandom.getstate()
     crash = None
     iterations = None
+    resumed = 0
     try:
         snmod.random = shim
         pyrandom.seed(sc["seed"])
@@ -292,8 +313,27 @@ def run_impl(sc):
                     net.post_charging_update()
         else:
             events = EventQueue([PluginEvent(ev.arrival, ev) for ev in evs])
-            sim = Simulator(net, _scheduler(sc), events, datetime(2020, 1, 1), period=5, verbose=False)
-            sim.run()
+            alg = _scheduler(sc)
+            pending = set(sc.get("raise_at", []))
+            inner_run = alg.run
+
+            class Interrupted(Exception):
+                pass
+
+            def run_once():
+                t = int(sim.iteration)
+                if t in pending:
+                    pending.discard(t)
+                    raise Interrupted("scheduler failed in period %d" % t)
+                return inner_run()
+            alg.run = run_once
+            sim = Simulator(net, alg, events, datetime(2020, 1, 1), period=5, verbose=False)
+            for _ in range(len(pending) + 1):
+                try:
+                    sim.run()
+                    break
+                except Interrupted:
+                    resumed += 1            # the caller handles the failure and resumes the same simulator
             iterations = int(sim.iteration)
     except Exception as ex:  # noqa
         crash = "%s: %s" % (type(ex).__name__, str(ex)[:120])
@@ -303,7 +343,7 @@ def run_impl(sc):
     if iterations is None:
         iterations = sum(1 for op, _ in net.rlog if op[0] == "P")
     return dict(steps=[[op, sn] for op, sn in net.rlog], choices=list(shim.log), crash=crash,
-                iterations=iterations,
+                iterations=iterations, resumed=resumed,
                 energies=[float(ev.energy_delivered) for ev in evs])
 
 
@@ -345,11 +385,14 @@ def make_case(sc):
                      and again["energies"] == impl["energies"] and again["crash"] == impl["crash"])
     queued = any(sn["queue"] for _, sn in impl["steps"])
     early_used = any(sn["early_unplug"] for _, sn in impl["steps"])
-    kind = "n%d/%s/%s/%s" % (sc["n"], "early" if sc["early"] else "late", sc["sched"],
-                             "earlyunplug" if early_used else ("queue" if queued else "noqueue"))
+    kind = "n%d/%s/%s/%s%s%s" % (sc["n"], "early" if sc["early"] else "late", sc["sched"],
+                                 "earlyunplug" if early_used else ("queue" if queued else "noqueue"),
+                                 "" if sc.get("ids", "plain") == "plain" else "/ids-" + sc["ids"],
+                                 "/resumed%d" % impl["resumed"] if impl.get("resumed") else "")
     return dict(input=sc, impl=impl, coq=case_coq(sc, impl), ambiguous=False, kind=kind,
                 sig=[sc["n"], sc["early"], sc["sched"], sc["seed"], sc["sched_seed"],
-                     [[s["k"], s["arrival"], s["departure"], s["energy"]] for s in sc["sessions"]], sc.get("ops")],
+                     [[s["k"], s["arrival"], s["departure"], s["energy"]] for s in sc["sessions"]], sc.get("ops"),
+                     sc.get("ids"), sc.get("raise_at")],
                 nontrivial=queued)
 
 
